@@ -357,23 +357,65 @@ def build_plan(m, draw):
 
 # ------------------------------------------------------------------ build and run
 
-def build_and_run(m, steps):
-    text = R.text(m)
-    tu = wraps.pybind_text(text, module_name='vmod', tpl=TPL)
-    header = cxxmock.emit(m)
+def build_and_run(m, steps, split=None):
+    """split = (cuts, stems): the module's top-level items are cut into len(cuts)+1 parts; the
+    last part is the main interface file, the earlier ones are additional files (sub-module
+    initialisers run before the main body, so registration order equals declaration order);
+    every part is wrapped through PybindWrapper.wrap / wrap_submodule, compiled separately and
+    all objects are linked into one extension module."""
     d = wraps.scratch_dir('c04')
+    cwd = os.getcwd()
     try:
         with open(os.path.join(d, 'vmock.h'), 'w') as f:
-            f.write(header)
-        with open(os.path.join(d, 'tu.cpp'), 'w') as f:
-            f.write(tu)
+            f.write(cxxmock.emit(m))
+        sources = []
+        if split is None:
+            with open(os.path.join(d, 'tu.cpp'), 'w') as f:
+                f.write(wraps.pybind_text(R.text(m), module_name='vmod', tpl=TPL))
+            sources.append(os.path.join(d, 'tu.cpp'))
+        else:
+            cuts, stems = split
+            items = list(m.content)
+            bounds = [0] + list(cuts) + [len(items)]
+            parts = [M.Module(tuple(items[bounds[i]:bounds[i + 1]]))
+                     for i in range(len(bounds) - 1)]
+            names = list(stems[:len(parts) - 1]) + ['main']
+            files = []
+            for part, nm in zip(parts, names):
+                fn = os.path.join(d, nm + '.i')
+                with open(fn, 'w') as f:
+                    f.write(R.text(part))
+                files.append(fn)
+            w = wraps.pybind_wrapper(module_name='vmod', tpl=TPL)
+            os.chdir(d)
+            w.wrap([files[-1]] + files[:-1], os.path.join(d, 'vmod_main.cpp'))
+            sources.append(os.path.join(d, 'vmod_main.cpp'))
+            for fn, nm in zip(files[:-1], names[:-1]):
+                w.wrap_submodule(fn)
+                sources.append(os.path.join(d, nm + '.cpp'))
+            os.chdir(cwd)
         so = os.path.join(d, 'vmod' + sysconfig.get_config_var('EXT_SUFFIX'))
-        cmd = ['g++', '-std=c++17', '-O0', '-shared', '-fPIC', '-w', '-fvisibility=hidden',
-               '-I' + d, '-I' + os.path.join(REPO, 'pybind11', 'include'),
-               '-I' + sysconfig.get_paths()['include'], os.path.join(d, 'tu.cpp'), '-o', so]
-        r = subprocess.run(cmd, capture_output=True, text=True, timeout=1800)
-        if r.returncode != 0:
-            return {'compile_error': c09.first_error(r.stderr)}
+        base = ['g++', '-std=c++17', '-O0', '-fPIC', '-w', '-fvisibility=hidden',
+                '-I' + d, '-I' + os.path.join(REPO, 'pybind11', 'include'),
+                '-I' + sysconfig.get_paths()['include']]
+        if len(sources) == 1:
+            r = subprocess.run(base + ['-shared', sources[0], '-o', so], capture_output=True,
+                               text=True, timeout=1800)
+            if r.returncode != 0:
+                return {'compile_error': c09.first_error(r.stderr)}
+        else:
+            procs = [(src, subprocess.Popen(base + ['-c', src, '-o', src[:-4] + '.o'],
+                                            stdout=subprocess.PIPE, stderr=subprocess.PIPE,
+                                            text=True)) for src in sources]
+            for src, pr in procs:
+                _, err = pr.communicate(timeout=1800)
+                if pr.returncode != 0:
+                    return {'compile_error': '%s: %s' % (os.path.basename(src),
+                                                         c09.first_error(err))}
+            r = subprocess.run(['g++', '-shared'] + [src[:-4] + '.o' for src in sources] +
+                               ['-o', so], capture_output=True, text=True, timeout=1800)
+            if r.returncode != 0:
+                return {'link_error': r.stderr[-400:]}
         with open(os.path.join(d, 'driver.py'), 'w') as f:
             f.write(pyexec.DRIVER)
         plan = {'module': 'vmod', 'steps': [{k: v for k, v in s.items() if k != 'expect'}
@@ -387,6 +429,7 @@ def build_and_run(m, steps):
             return {'crash': 'driver exit %d: %s' % (r.returncode, r.stderr[-300:])}
         return json.load(open(os.path.join(d, 'out.json')))
     finally:
+        os.chdir(cwd)
         shutil.rmtree(d, ignore_errors=True)
 
 
@@ -428,7 +471,7 @@ def match_result(want, got):
 def check(case):
     m, steps = case['m'], case['plan']
     try:
-        res = build_and_run(m, steps)
+        res = build_and_run(m, steps, case.get('split'))
     except subprocess.TimeoutExpired:
         raise RuntimeError('INCONCLUSIVE: build or run timed out')
     except Exception as e:
@@ -439,6 +482,8 @@ def check(case):
     case['_executed'] = 0
     if 'compile_error' in res:
         return [Failure('C04.not-executed-compile-error', res['compile_error'])]
+    if 'link_error' in res:
+        return [Failure('C04.link-error', res['link_error'])]
     if 'crash' in res:
         return [Failure('C04.crash', res['crash'])]
     if res.get('import_error'):
